@@ -428,6 +428,39 @@ def build_runner(engine):
 
 # ----------------------------------------------------------------------------- translators
 
+TIE_ERRORS = {}      # translator module -> (message, Gen files it writes); filled by gen_translators
+GEN_OUTPUTS = {"alloc_sites": ["AllocSites_gen.v"], "dispatch": ["Dispatch_gen.v", "Intrinsics_gen.v"], "c2coq": ["CLeaf_gen.v"]}
+_DEPS = None
+
+
+def coq_deps():
+    """coqdep over the whole development: {target.vo: [direct .vo dependencies]} (cached per process)."""
+    global _DEPS
+    if _DEPS is None:
+        p = sh(["coqdep", "-Q", "theories", "Carquet"] +
+               [q.relative_to(COQ).as_posix() for q in (COQ / "theories").rglob("*.v")], cwd=COQ)
+        _DEPS = {}
+        for line in p.stdout.splitlines():
+            if ":" not in line:
+                continue
+            lhs, rhs = line.split(":", 1)
+            tgt = [t for t in lhs.split() if t.endswith(".vo")]
+            if tgt:
+                _DEPS[tgt[0]] = [d for d in rhs.split() if d.endswith(".vo")]
+    return _DEPS
+
+
+def coq_cone(targets):
+    """all .vo files the given .vo targets depend on, transitively (paths relative to coq/)"""
+    deps, seen, todo = coq_deps(), set(), list(targets)
+    while todo:
+        t = todo.pop()
+        for d in deps.get(t, []):
+            if d not in seen:
+                seen.add(d); todo.append(d)
+    return seen
+
+
 def gen_translators():
     """Regenerate coq/theories/Gen/*.v from REPO's working tree.  Raises TieError when a construct
     the translators expect is gone (broken tie, never silently skipped)."""
@@ -448,8 +481,11 @@ def gen_translators():
                     mod = importlib.util.module_from_spec(spec)
                     spec.loader.exec_module(mod)
                     summary.update(mod.generate(REPO, gen) or {})
-                except gen_consts.TieError:
-                    raise
+                except gen_consts.TieError as e:
+                    # scoped: only the properties whose Coq cone (or engine) uses this translator's outputs report it
+                    # (prelude); a tie broken in the writer's translator is not an alarm of the concurrency check
+                    TIE_ERRORS[f.stem] = (str(e), list(getattr(mod, "OUTPUTS", None) or GEN_OUTPUTS.get(f.stem, [f.stem.capitalize() + "_gen.v"])))
+                    log("translator %s: tie broken: %s" % (f.name, e))
                 except Exception as e:
                     # a translator that crashes must not take every property down with it: its outputs are
                     # removed, so that exactly the cones that import them stop building (= a broken tie there)
@@ -638,6 +674,18 @@ def prelude(rep, pid):
         gen_translators()
     except TieError as e:
         rep.broken.append(("translator", "tie (a) broken: " + str(e), None))
+    if TIE_ERRORS:
+        try:
+            frag0 = json.loads((VERIF / "checks" / f"{pid}.manifest.json").read_text())
+        except Exception:
+            frag0 = {}
+        mine = set([frag0.get("engine", "")] + list(frag0.get("tie_engines", [])) + list(frag0.get("translators", [])))
+        cone = coq_cone([f"theories/Props/Properties_{pid}.vo"] + [f"theories/Tie/Tie_{e}.vo" for e in mine if e])
+        for stem, (msg, outs) in TIE_ERRORS.items():
+            if stem in mine or any(("theories/Gen/" + o + "o") in cone for o in outs):
+                rep.broken.append(("translator", "tie (a) broken (tools/gen.d/%s.py): %s" % (stem, msg), None))
+            else:
+                log("translator %s reports a broken tie that does not concern %s: %s" % (stem, pid, msg))
     try:
         lib = build_repo()
     except BuildError as e:
